@@ -70,7 +70,7 @@ def World.exec (w : World) (evs : List Ev) (commit : World → World) : World ×
       let d := w.disk.applyAll done
       let d := match p.lose with
         | none => d
-        | some l => d.powerLoss (fun f => p.loseAll || l.contains f)
+        | some l => d.reboot (fun f => p.loseAll || l.contains f)
       ({ w with disk := d, trace := w.trace ++ done, handle := none, scan := none, txs := [],
                 plan := none, stagingCtr := bumpStaging w.stagingCtr done }, .crashed)
     else
